@@ -3,8 +3,8 @@
 // Scanner.Run with the sync ticker replaced by explicit Sync() calls) on a file in a scratch
 // directory that grows in generated pieces. The harness is the consumer of the scanner's channel.
 //
-// No real-time sleeps: every utils.Sleep(ctx, d) of a worker (200 ms inside readLine on a partial line,
-// 1 s at EOF with nothing to send) calls ctx.Done(); the harness' context recognises that caller and
+// No real-time sleeps: every utils.Sleep(ctx, d) of a worker (1 s at EOF with nothing to send; a sleep inside
+// readLine, which the reader had before its repair, is told apart and recorded as such) calls ctx.Done(); the harness' context recognises that caller and
 // blocks the call until the driver releases it, then returns a closed channel. A worker is therefore
 // always blocked in exactly one place the driver controls: a sleep, the channel send (the driver
 // receives at once), or waitConfirm (the driver holds the event), and every step is deterministic.
@@ -549,7 +549,8 @@ type oracle struct {
 }
 
 // classes of recorded findings: they must not hide another violation of the same case
-var recorded = map[string]bool{"complete-lines-withheld-behind-partial-line": true, "replaced-file-same-inode-not-shorter-not-read-from-start": true}
+// (complete-lines-withheld-behind-partial-line was one until readLine was repaired; it is a violation now)
+var recorded = map[string]bool{"replaced-file-same-inode-not-shorter-not-read-from-start": true}
 
 func (o *oracle) fail(class, detail string) {
 	if o.viol == nil || (recorded[o.viol.Class] && !recorded[class]) {
@@ -668,7 +669,9 @@ func (o *oracle) fresh(d *driver) {
 }
 func (o *oracle) sleep(partial bool, d *driver) {
 	f := o.file(d)
-	if partial {
+	if partial || (len(f) > 0 && f[len(f)-1] != '\n') {
+		// the end of the file fell inside a line (partial: the sleep was the one inside readLine, which the
+		// repaired reader no longer has)
 		o.partial = true
 	}
 	if o.awaiting || o.wfile != nil {
@@ -924,7 +927,8 @@ func corpus() []*Replay {
 	bs := func(s string) []byte { return []byte(s) }
 	b16 := strings.Repeat("b", 64)
 	return []*Replay{
-		// C17_up_to_last_line_refuted: "aaa\n" is read but withheld while "bb" is not terminated
+		// witness of C17_up_to_last_line_looping_reader_refuted: with the reader the code had, "aaa\n" was read but
+		// withheld while "bb" was not terminated; the code hands "aaa\n" over and then sleeps on "bb" alone
 		{B: 64, Rpe: 2, Format: "pure", Init: bs("aaa\nbb"), Ops: []Op{{K: "start"}, {K: "run"}, {K: "app", Data: bs("\n")}, {K: "run"}, {K: "confirm"}}},
 		// C17_rotate_same_inode_refuted: same inode, new content at least as long as the saved offset
 		{B: 64, Rpe: 1, Format: "pure", Init: bs("ab\n"), Ops: []Op{{K: "start"}, {K: "confirm"}, {K: "persist"}, {K: "stop"},
